@@ -2,7 +2,7 @@
    The specification's step (which the real code equals, C14_tie) is: one M1 fetch per opcode byte -- one for an
    unprefixed instruction, two for CB/ED/DD/FD forms, two or three for DDCB/FDCB (this project: three) -- each ticking
    R's low seven bits; operand fetches do not tick; no instruction other than LD I,A / LD R,A writes I or R. *)
-From Z80V Require Import Proofs.SpecFacts Proofs.SpecAll.
+From Z80V Require Import Proofs.SpecFacts Proofs.SpecAll Proofs.Refresh Proofs.Iter.
 
 Theorem C14_tie : forall cpu, WF cpu -> Step cpu = spec_step impl_unspec cpu.
 Proof. exact Step_ok. Qed.
@@ -62,3 +62,21 @@ Theorem C14_go_flag_helper : forall cpu d, is8 d -> is8 (g_AF_Lo cpu) ->
   updateFlagIR cpu d = s_AF_Lo cpu (ldair_flags d (g_IFF2 cpu) (g_AF_Lo cpu)).
 Proof. exact updateFlagIR_ok. Qed.
 Print Assumptions C14_go_flag_helper.
+
+(* ---- a whole instruction step: R advances by exactly the number of opcode fetches of the instruction executed
+   (fetched: which instruction, how many M1 fetches -- 1 unprefixed, 2 for CB/ED/DD/FD, 3 for DDCB/FDCB in this project),
+   I and the rest are untouched, unless that instruction is LD I,A / LD R,A ---- *)
+Theorem C14_step_refresh : forall u cpu, writes_ir (fst (fetched u cpu)) = false ->
+  g_IR_Hi (step_instr u cpu) = g_IR_Hi cpu /\ g_IR_Lo (step_instr u cpu) = ticks (snd (fetched u cpu)) (g_IR_Lo cpu).
+Proof. exact step_instr_refresh. Qed.
+Print Assumptions C14_step_refresh.
+Theorem C14_ticks : forall n r, is8 r ->
+  Z.testbit (ticks n r) 7 = Z.testbit r 7 /\ Z.land (ticks n r) 127 = (Z.land r 127 + Z.of_nat n) mod 128.
+Proof. exact ticks_bits. Qed.
+Print Assumptions C14_ticks.
+(* a repeating block instruction re-executes its two fetches on every repetition, a halted CPU its one fetch on every
+   Step: both leave PC on the instruction (C09_one_element_per_step, C07_halt_keeps_pc), so every further Step is
+   again a step_instr from that PC and C14_step_refresh applies to each of them *)
+Theorem C14_generated_steps : forall n cpu, WF cpu -> iter n cpu = spec_iter impl_unspec n cpu.
+Proof. exact iter_ok. Qed.
+Print Assumptions C14_generated_steps.
